@@ -627,3 +627,37 @@ fn c04_put_at_capacity_evicts_only_the_lru_item() {
     core::mem::forget(table);
 }
 }
+
+// =============================================================================================
+// C15: secrets are rotated lazily, before the request is handled, exactly when rotation is due
+// =============================================================================================
+server_stubs! {
+fn c15_handle_request_rotates_lazily() {
+    let mut s = server(3);
+    let due: bool = kani::any();
+    unsafe {
+        ROTATE_DUE = due;
+        FILTER_ALLOW = true;
+        TOKEN_OK = true;
+    }
+    let kind: u8 = kani::any();
+    kani::assume(kind < 2);
+    let rtype = if kind == 0 {
+        RequestTypeSpecific::Ping
+    } else {
+        RequestTypeSpecific::Put(PutRequest { token: Box::new([1]), put_request_type: PutRequestSpecific::AnnouncePeer(AnnouncePeerRequestArguments { info_hash: id1(1), port: 1, implied_port: None }) })
+    };
+    let table = rt();
+    let reply = s.handle_request(&table, &table, from_addr(), RequestSpecific { requester_id: id1(0x33), request_type: rtype });
+    assert!(reply.is_some());
+    assert!(unsafe { ROTATE_CALLS } == if due { 1 } else { 0 }, "C15: the secrets are rotated exactly when rotation is due (more than 5 minutes since the last one), once, on the next request");
+    if kind == 1 {
+        assert!(unsafe { TOKEN_CALLS } == 1, "and the token of the request is validated after that rotation");
+    }
+    kani::cover!(due && kind == 1);
+    kani::cover!(!due);
+    core::mem::forget(reply);
+    core::mem::forget(s);
+    core::mem::forget(table);
+}
+}
